@@ -258,6 +258,9 @@ func TestPropExtraKeysDoNotChangeKind(t *testing.T) {
 			mask &= rapid.IntRange(0, 1<<len(kindKeys)-1).Draw(t, "mask2")
 		}
 		typ := rapid.SampledFrom(typeValues).Draw(t, "type")
+		if rapid.IntRange(0, 11).Draw(t, "longtype") == 0 {
+			typ = longName().Draw(t, "longtypename")
+		}
 		var kv []*yaml.Node
 		has := map[string]bool{}
 		for i, k := range kindKeys {
@@ -409,6 +412,23 @@ func seq(n int) []int {
 
 var recScalar = ev.New("TestPropScalarSteps", "scalar step strings: the five recognised words (-> wait / input) and arbitrary strings of domain S incl. near misses (-> unknown step + ErrUnknownStepType, contents kept verbatim); non-trivial = near-miss of a recognised word (case, white space, prefix) ; distinct by string")
 
+// longName: a long name of 1 to 4 byte letters - 10 to 400 of them, so that byte length and character
+// count straddle whatever limit a message formatter or a buffer might have in mind
+func longName() *rapid.Generator[string] {
+	return rapid.Custom(func(t *rapid.T) string {
+		unit := rapid.SampledFrom([]string{"x", "é", "步", "😀", "ß", "日本", "aé", "wait", "Ω-"}).Draw(t, "unit")
+		n := rapid.IntRange(10, 400).Draw(t, "units")
+		if rapid.Bool().Draw(t, "nearlimit") {
+			n = rapid.SampledFrom([]int{32, 43, 64, 85, 100, 127, 128, 129, 255, 256, 257}).Draw(t, "limit") / len([]rune(unit))
+			n += rapid.IntRange(-1, 1).Draw(t, "off")
+			if n < 1 {
+				n = 1
+			}
+		}
+		return strings.Repeat(unit, n)
+	})
+}
+
 func TestPropScalarSteps(t *testing.T) {
 	known := map[string]string{"wait": doc.KWait, "waiter": doc.KWait, "block": doc.KInput, "input": doc.KInput, "manual": doc.KInput}
 	ev.Check(t, 3000, 200000, func(t *rapid.T) {
@@ -416,9 +436,10 @@ func TestPropScalarSteps(t *testing.T) {
 			rapid.SampledFrom([]string{"wait", "waiter", "block", "input", "manual"}),
 			rapid.SampledFrom([]string{"Wait", "wait ", " wait", "waiters", "blocks", "inputs", "manual\n", "WAIT", "trigger", "command", "group", "wai", "", "~", "null", "true", "1"}),
 			strs.S(),
+			longName(),
 		).Draw(t, "scalar")
 		root := doc.MapNode(false, doc.StrNode("steps"), doc.SeqNode(false, doc.StrNode(s)))
-		d, err := doc.Render(root, 2, 1000)
+		d, err := doc.Render(root, 2, 4000)
 		if err != nil {
 			recScalar.Excluded("render-fault")
 			return
